@@ -90,8 +90,14 @@ fn baseline(b: u64) -> Plan {
         }
         "idle_long" => {
             // a server that has been idle for a long time (up to a simulated minute), optionally
-            // after a little traffic at the start
-            if rng.chance(1, 2) {
+            // after a little traffic at the start. With per-client statistics the interval is long
+            // here (a round of statistics every 1 or 6 s) and there is traffic to publish, so that
+            // the signal also meets a reporter that has collected a round and waits for the next
+            let stats_on = s.client_stats.is_some();
+            if stats_on {
+                s.status_interval = Some(*rng.pick(&[10i64, 60, 60]));
+            }
+            if stats_on || rng.chance(1, 2) {
                 let mut ctr = bseed ^ 0x1d1e;
                 for k in 0..(1 + rng.below(8)) {
                     plan.step(20_000 + k * 300, Action::Send { sock: k as u32, req: valid_spec(&mut rng, &mut ctr) });
